@@ -994,56 +994,31 @@ def run_case(case):
 
 def known_pattern(case, sig):
     """decidable input pattern of the defects recorded in findings.d/C09.json (computed from the case and the kind of
-    check that failed, never from the values): a failure outside every pattern is a new violation"""
+    check that failed, never from the values): a failure outside every pattern is a new violation.
+    The patterns of the defects repaired by fixes/C09/*.diff (D18, D40-D49) are gone: they are violations again."""
     fam, op, chk = case["fam"], case["op"], sig.get("check")
     lazy = sig["self_kind"] == "lazy"
+    if not lazy:
+        return "none"
     if fam == "ternary":
-        if sig["site"] == "base.ternary_foreach" and sig["order_differs"] and chk in ("value", "raises"):
-            return "ternary-operands-in-different-key-order"
-        if lazy and op == "where" and sig["keyrel"].split("/")[-1] != "same" and chk in ("value", "must-raise"):
+        if op == "where" and sig["keyrel"].split("/")[-1] != "same" and chk in ("value", "must-raise"):
             return "lazy-where-different-key-sets"
-        if lazy and sig["tensor_nd"] and op != "where" and chk == "value":
+        if sig["tensor_nd"] and op != "where" and chk == "value":
             return "lazy-stack-with-nd-tensor"
-        if lazy and sig.get("batch_differs") and chk == "value":
+        if sig.get("batch_differs") and chk == "value":
             return "lazy-stack-with-broadcast-tensordict"
     if fam == "binary":
-        o0 = case["args"][0]
-        if chk == "lock" and isinstance(case["kw"].get("default"), dict) and sig["keyrel"] in ("other-extra", "both") \
-                and case["self"].get("locked"):
-            return "locked-self-default-extra-keys"
-        if o0["k"] == "td" and not o0["entries"] and chk in ("must-raise", "value") and not sig["inplace"] \
-                and sig["site"] in ("base.binary", "base.__and__"):
-            return "other-tensordict-empty"
-        if op == "__rsub__" and chk == "value":
-            return "rsub"
-        if sig["site"] == "base.__and__" and (sig["tensor_nd"] or sig.get("batch_differs")) and chk == "value" and not lazy:
-            return "and-without-batch-broadcast"
-        if sig["site"] == "base.binary_inplace" and sig["keyrel"] == "other-extra" and chk == "must-raise":
-            return "inplace-other-has-extra-keys"
-        if lazy and sig["tensor_nd"] and chk == "value":
+        if sig["tensor_nd"] and chk == "value":
             return "lazy-stack-with-nd-tensor"
-        if lazy and sig.get("batch_differs") and chk == "value":
+        if sig.get("batch_differs") and chk == "value":
             return "lazy-stack-with-broadcast-tensordict"
-        if (lazy and sig["has_default"] and isinstance(case["kw"].get("default"), dict)
+        if (sig["has_default"] and isinstance(case["kw"].get("default"), dict)
                 and sig["keyrel"] in ("other-extra", "both") and chk == "value"):
             return "lazy-stack-default-value-extra-keys"
     if fam == "reduce":
-        kd, dim = case["keepdim"] is True, case["dim"]
-        if chk == "names" and sig["has_names"]:
-            if sig["site"] == "_td._cast_reduction" and ((kd and (op in REDUCTIONS_INT[1:] or dim == "nodefault"))
-                                                         or op in REDUCTIONS_CUM):
-                return "cast-reduction-names-of-kept-dims"
-            if lazy and op == "norm":
-                return "lazy-norm-keeps-names"
-            if op == "prod" and kd and len(case["self"]["bs"]) == 1 and isinstance(dim, int):
-                return "prod-keepdim-names-rank1"
-        if chk == "value" and dim is None and op in REDUCTIONS_TUPLE and not case.get("reduce"):
-            return "dim-none"
-        if chk == "value" and isinstance(dim, list) and op in ("amin", "amax"):
-            return "tuple-dims-on-amin-amax"
-        if chk == "raises" and op == "prod" and kd and dim == 0:
-            return "prod-keepdim-dim0"
-        if lazy and op in ("softmax", "logsumexp") and chk in ("value", "raises", "names"):
+        if chk == "names" and sig["has_names"] and op == "norm":
+            return "lazy-norm-keeps-names"
+        if op in ("softmax", "logsumexp") and chk in ("value", "raises", "names"):
             return "lazy-softmax-logsumexp-dim"
     return "none"
 
@@ -1544,6 +1519,8 @@ def dunder_ref(ans):
         return None
     if m == "mul-reciprocal":
         return lambda x, y: y * x.reciprocal()
+    if m == "neg-add":
+        return lambda x, y: x.neg().add(y)
     f = _METHOD_FN[m][1 if ip == "t" else 0]
     return (lambda x, y: f(x, y)) if sf == "t" else (lambda x, y: f(y, x))
 
